@@ -470,6 +470,19 @@ def native_replay(job, src, test_code, logdir):
                      "panic": panic[:2], "log": logf}
     out["reproduced"] = any(out[p]["failed"] for p in ("dev", "release"))
     out["tests"] = names
+    if not out["reproduced"] and job.ptr_checks and out["dev"]["ran"]:
+        # memory-safety harness: an out-of-bounds access need not crash natively; confirm it with valgrind memcheck
+        txt = open(out["dev"]["log"], errors="replace").read()
+        m = re.search(r"Running unittests [^\n]*\(([^)\n]+)\)", txt)
+        if m and os.path.exists(m.group(1)) and shutil.which("valgrind"):
+            logf = os.path.join(logdir, "%s.replay.valgrind.log" % job.harness)
+            cmd = ["valgrind", "--error-exitcode=99", "--quiet", m.group(1), name]
+            rc, wall, to = run_limited(cmd, src, logf, 900, 16)
+            vtxt = open(logf, errors="replace").read()
+            errs = re.findall(r"==\d+== (Invalid (?:read|write) of size \d+|Mismatched free|Invalid free)", vtxt)
+            out["valgrind"] = {"rc": rc, "errors": errs[:4], "log": logf}
+            if rc == 99 and errs:
+                out["reproduced"] = True
     return out
 
 
@@ -623,9 +636,33 @@ def check_property(prop, tier, seed, only=None):
                     l(ksrc, steps)
                 else:
                     LOWERINGS[l](ksrc, steps)
-            bw = kani_build(ksrc, tdir, logdir)
-            steps.append("kani build (all harness modules of this property) %.0fs" % bw)
-            results.update(run_jobs(kani_jobs, lambda j: run_kani_job(j, ksrc, tdir, logdir)))
+            build_err = None
+            try:
+                bw = kani_build(ksrc, tdir, logdir)
+            except Inconclusive as e:
+                build_err = e
+                if "L2" in [l for l in prop.lowerings if not callable(l)]:
+                    # the light-error-payload lowering does not type-check against code that names Error::Io(..)
+                    # directly: rebuild without it (harnesses forget their results, L2 is an optimisation only)
+                    shutil.rmtree(ksrc, ignore_errors=True)
+                    subprocess.run(["cp", "-a", src, ksrc], check=True)
+                    inject(ksrc, prop.inject, [])
+                    for l in prop.lowerings:
+                        if l != "L2":
+                            (l if callable(l) else LOWERINGS[l])(ksrc, [])
+                    steps.append("L2 dropped: the lowered tree does not compile (%s)" % str(e)[:120].replace("\n", " "))
+                    try:
+                        bw = kani_build(ksrc, tdir, logdir)
+                        build_err = None
+                    except Inconclusive as e2:
+                        build_err = e2
+            if build_err is None:
+                steps.append("kani build (all harness modules of this property) %.0fs" % bw)
+                results.update(run_jobs(kani_jobs, lambda j: run_kani_job(j, ksrc, tdir, logdir)))
+            else:
+                # the MIR queries below still run; every Kani harness of this property is inconclusive
+                for j in kani_jobs:
+                    results[j.harness] = {"harness": j.harness, "status": "INCONCLUSIVE", "reason": str(build_err)[:300], "failed": []}
         for j in other_jobs:
             results[j.name] = j.run(ctx)
 
